@@ -10,7 +10,7 @@
 
    (2) data_stage   -- what the HOST sees: it reads packets at offsets 0, mps, 2 mps, ... (StandardRequestHandler
        adds max_packet_size to its 11-bit start_position on every ACK) until a packet shorter than mps arrives or
-       wLength bytes have arrived (or the device STALLs).  DescSpec_proofs.data_stage_spec proves that, for a
+       wLength bytes have arrived (or the device STALLs).  DescSpec_proofs.data_stage_respond proves that, for a
        responder that answers as in (1), the concatenated packets are the first min(wLength, len) bytes of the
        descriptor, all packets but the last are full, and the last one is short -- a zero-length packet exactly
        when the total is a multiple of mps below wLength.
@@ -215,3 +215,48 @@ Fixpoint events (cur : option (list N)) (ios : list (N * N)) : list dev_event :=
                else events cur t
            end
   end.
+
+Fixpoint bytes_eqb (a b : list N) : bool :=
+  match a, b with
+  | [], [] => true
+  | x :: a', y :: b' => (x =? y) && bytes_eqb a' b'
+  | _, _ => false
+  end.
+Definition ev_eqb (a b : dev_event) : bool :=
+  match a, b with
+  | EvStall, EvStall => true
+  | EvPacket x, EvPacket y => bytes_eqb x y
+  | _, _ => false
+  end.
+Fixpoint evs_eqb (a b : list dev_event) : bool :=
+  match a, b with
+  | [], [] => true
+  | x :: a', y :: b' => ev_eqb x y && evs_eqb a' b'
+  | _, _ => false
+  end.
+
+(* what the requests of a recorded trace must be answered with, one event per start strobe *)
+Definition expected_events (c : dcoll) (mps : N) (ios : list (N * N)) : list dev_event :=
+  flat_map (fun io => let i := fst io in
+                      if i_start i then
+                        [match respond c mps (i_value i) (i_wlen i) (i_sp i) with
+                         | RStall => EvStall | RData bs => EvPacket bs end]
+                      else []) ios.
+
+(* packet-level oracle over a recorded trace whose requests all ran to completion: 0 = the device's packets / stalls
+   are exactly the specified ones, 1 = not *)
+Definition events_code (c : dcoll) (mps : N) (ins outs : list N) : N :=
+  let ios := combine ins outs in
+  if evs_eqb (events None ios) (expected_events c mps ios) then 0 else 1.
+
+(* the host side of the end-to-end oracle: packets received for one GET_DESCRIPTOR (value, wLength) and whether the
+   data stage ended in a STALL, against data_stage over `respond` *)
+Fixpoint pkts_eqb (a b : list (list N)) : bool :=
+  match a, b with
+  | [], [] => true
+  | x :: a', y :: b' => bytes_eqb x y && pkts_eqb a' b'
+  | _, _ => false
+  end.
+Definition stage_code (c : dcoll) (mps value wlen : N) (pkts : list (list N)) (stalled : bool) : N :=
+  let (ps, st) := data_stage 4096 (respond c mps value wlen) mps wlen 0 0 in
+  if pkts_eqb pkts ps && Bool.eqb stalled st then 0 else 1.
